@@ -1450,6 +1450,26 @@ class TexArgs(list):
             return TexArgs(value)
         return value
 
+    def __setitem__(self, key, value):
+        """Assign an argument or a slice of arguments. Unparsed argument
+        strings are parsed, as in `append`; the proxy `.all` is rebuilt."""
+        if isinstance(key, slice):
+            value = [self.__coerce(arg) for arg in value]
+        else:
+            value = self.__coerce(value)
+        super().__setitem__(key, value)
+        self.all = list(self)
+
+    def __delitem__(self, key):
+        """Delete an argument or a slice of arguments; the proxy `.all` is
+        rebuilt."""
+        super().__delitem__(key)
+        self.all = list(self)
+
+    def __iadd__(self, args):
+        self.extend(args)
+        return self
+
     def __contains__(self, item):
         """Checks for membership. Allows string comparisons to args.
 
